@@ -1,6 +1,7 @@
 package props
 
 import (
+	"bufio"
 	"bytes"
 	"encoding/hex"
 	"fmt"
@@ -460,13 +461,25 @@ func c07Foreign(kind int, cc byte) [188]byte {
 		return ref.CarryPayload(0x0001, true, cc, decoy)
 	case 4:
 		return ref.CarryPayload(0x1F00, true, cc, decoy)
-	default:
+	case 5:
 		// adaptation field only (no payload) on an elementary PID
 		return ref.BuildPacket(ref.Header{Sync: 0x47, PID: 0x10, AFC: 2, CC: cc & 0xF}, &ref.AF{PCR: ref.PCRBytes(12345678)}, 183, nil)
+	default:
+		// a packet on a reserved PID (0x0005 / 0x000F) whose payload is full of byte sequences that look
+		// like packet headers (47 01 00 10 ...): a resynchronising reader must not lock onto them
+		pay := make([]byte, 184)
+		for i := range pay {
+			pay[i] = []byte{0x47, 0x01, 0x00, 0x10, 0xAA, 0x47, 0x00, 0x00, 0x30, 0x07}[i%10]
+		}
+		pid := 0x0005
+		if kind == 7 {
+			pid = 0x000F
+		}
+		return ref.CarryPayload(pid, true, cc, pay)
 	}
 }
 
-const c07ForeignKinds = 6
+const c07ForeignKinds = 8
 
 type c07ChunkReader struct {
 	data []byte
@@ -489,7 +502,7 @@ func (c *c07ChunkReader) Read(p []byte) (int, error) {
 	return n, nil
 }
 
-var c07Readers = []string{"all-at-once", "one-byte", "half", "data-with-eof", "chunks-of-100", "chunks-of-3"}
+var c07Readers = []string{"all-at-once", "one-byte", "half", "data-with-eof", "chunks-of-100", "chunks-of-3", "bufio-default", "bufio-16-over-chunks-of-3"}
 
 func c07Reader(kind int, data []byte) io.Reader {
 	switch kind {
@@ -503,8 +516,12 @@ func c07Reader(kind int, data []byte) io.Reader {
 		return iotest.DataErrReader(bytes.NewReader(data))
 	case 4:
 		return &c07ChunkReader{data, 100}
-	default:
+	case 5:
 		return &c07ChunkReader{data, 3}
+	case 6:
+		return bufio.NewReader(bytes.NewReader(data))
+	default:
+		return bufio.NewReaderSize(&c07ChunkReader{data, 3}, 16)
 	}
 }
 
@@ -667,6 +684,69 @@ func c07Pre(r *engine.Run) {
 	r.Notes["selftest_captured_vectors"] = len(vectors)
 }
 
+type c07ReuseCase struct {
+	A int `json:"first_table"`
+	B int `json:"second_table"`
+}
+
+var c07ReuseTables = []ref.PATSection{
+	{TSID: 1, Version: 1, CurrentNext: true, Entries: []ref.PATEntry{{Program: 1, PID: 0x100, Reserved: 7}}},
+	{TSID: 1, Version: 2, CurrentNext: true, Entries: []ref.PATEntry{{Program: 1, PID: 0x200, Reserved: 7}}},
+	{TSID: 2, Version: 3, CurrentNext: true, Entries: []ref.PATEntry{{Program: 7, PID: 0x100, Reserved: 7}}},
+	{TSID: 1, Version: 1, CurrentNext: true, Entries: []ref.PATEntry{{Program: 0, PID: 0x10, Reserved: 7}, {Program: 2, PID: 0x300, Reserved: 7}}},
+	{TSID: 1, Version: 1, CurrentNext: true, Entries: []ref.PATEntry{{Program: 3, PID: 0x300, Reserved: 7}, {Program: 2, PID: 0x10, Reserved: 7}}},
+}
+
+// c07CheckReuse: the caller decodes table A from a buffer, then REUSES that buffer for table B (same
+// length) and decodes again, as a demultiplexer that keeps one section buffer does; every answer for the
+// second table must come from the second table.
+func c07CheckReuse(c c07ReuseCase) engine.Result {
+	var res engine.Result
+	a := append(ref.Pointer(0), c07ReuseTables[c.A].Bytes()...)
+	b := append(ref.Pointer(0), c07ReuseTables[c.B].Bytes()...)
+	if len(a) != len(b) {
+		return res
+	}
+	engine.Guard(&res, "NewPAT|buffer-reuse", func() {
+		buf := append([]byte{}, a...)
+		patA, err := psi.NewPAT(buf)
+		if err != nil {
+			res.Failf("NewPAT|buffer-reuse|error", "%v", err)
+			return
+		}
+		probe := func(pat psi.PAT, t *ref.PATSection, which string) {
+			want := map[int]bool{}
+			for _, e := range t.Entries {
+				if e.Program != 0 {
+					want[e.PID] = true
+				}
+			}
+			for _, pid := range []int{0x10, 0x100, 0x200, 0x300, 0x101, 0} {
+				pk := packet.Packet(ref.CarryPayload(pid, false, 0, ref.PadPayload(nil, 184)))
+				got, err := psi.IsPMT(&pk, pat)
+				res.Evals++
+				if err != nil || got != want[pid] {
+					res.Failf("IsPMT|buffer-reuse|"+which, "table %d then table %d in the same buffer: IsPMT(pid %#x)=%v err=%v want %v", c.A, c.B, pid, got, err, want[pid])
+				}
+			}
+			if n := pat.NumPrograms(); n != len(t.Entries) {
+				res.Failf("NumPrograms|buffer-reuse|"+which, "NumPrograms()=%d want %d", n, len(t.Entries))
+			}
+		}
+		probe(patA, &c07ReuseTables[c.A], "first-table")
+		copy(buf, b)
+		patB, err := psi.NewPAT(buf)
+		if err != nil {
+			res.Failf("NewPAT|buffer-reuse|error", "%v", err)
+			return
+		}
+		probe(patB, &c07ReuseTables[c.B], "second-table")
+	})
+	res.Nontrivial = 1
+	res.Outcome(c.A, c.B)
+	return res
+}
+
 func init() {
 	engine.Register(&engine.Property{
 		ID: "C07", Title: "PAT decoding: program count, program map and single-program PID are exact", Level: "model_checking",
@@ -684,7 +764,7 @@ func init() {
 			},
 			&engine.Tree{
 				Name: "streams",
-				Rule: "choice tree: PAT section (7 shapes incl. empty, network only, 42 entries) x 0..3 preceding packets of other PIDs, each one of 6 kinds (null; PUSI packets carrying a complete decoy PAT on PIDs 0x100, 0x1000, 0x001, 0x1F00; adaptation-field-only) x PAT packet present/absent x header bits x PAT carrier (padded payload / adaptation-field stuffing / adaptation field with PCR) x what follows (nothing / a different PAT / foreign packet) x partial packet of {0,1,4,187} bytes at the end x reader fragmentation (all at once, one byte, half, data+EOF, chunks of 100, chunks of 3); oracle: decoded table of the first PID-0 packet, or ErrPATNotFound when there is none; non-trivial = executions with at least one non-default choice",
+				Rule: "choice tree: PAT section (7 shapes incl. empty, network only, 42 entries) x 0..3 preceding packets of other PIDs, each one of 8 kinds (packets on the reserved PIDs 0x0005 / 0x000F whose payload is full of header-like byte sequences; null; PUSI packets carrying a complete decoy PAT on PIDs 0x100, 0x1000, 0x001, 0x1F00; adaptation-field-only) x PAT packet present/absent x header bits x PAT carrier (padded payload / adaptation-field stuffing / adaptation field with PCR) x what follows (nothing / a different PAT / foreign packet) x partial packet of {0,1,4,187} bytes at the end x reader (all at once, one byte, half, data+EOF, chunks of 100, chunks of 3, bufio default size, bufio size 16 over chunks of 3); oracle: decoded table of the first PID-0 packet, or ErrPATNotFound when there is none; non-trivial = executions with at least one non-default choice",
 				Bound: func(r *engine.Run) int {
 					if r.Thorough() {
 						return -1
@@ -692,6 +772,18 @@ func init() {
 					return 4
 				},
 				Body: witnessTree(c07StreamBody, witnessPSI),
+			},
+			&engine.Enum[c07ReuseCase]{
+				Name: "buffer-reuse",
+				Rule: "every ordered pair of 5 tables of equal length (same PIDs under other program numbers, swapped entries, network entry first): table A is decoded from a buffer and queried, the SAME buffer is overwritten with table B and decoded again; NumPrograms and IsPMT on 6 PIDs for the second table must reflect the second table (NewPAT does not copy its argument, so a demultiplexer reusing its section buffer does exactly this)",
+				Gen: func(r *engine.Run, emit func(c07ReuseCase)) {
+					for a := range c07ReuseTables {
+						for b := range c07ReuseTables {
+							emit(c07ReuseCase{a, b})
+						}
+					}
+				},
+				Check: c07CheckReuse, Batch: 64, // one batch = one worker: the cases run back to back, undisturbed by other goroutines
 			},
 			&engine.Enum[c07NilCase]{
 				Name: "nil-pat",
